@@ -1,38 +1,58 @@
 """C09 -- junctions cut off from all sources are zeroed; connected ones never are.
 
-Python side: graph encoding, flag life cycle, zeroing of results and of the model rows.  The C++ search is checked for shape only.
+The isolation machinery is decided on what it DOES, not on how it is written: the simulator methods, the C++ search and the
+result writers are evaluated (sa/concrete.py, sa/cint.py: tree-walking evaluators over the parsed source, nothing of the
+repository is imported or run) on a small family of mock networks / graphs and the observable effect -- the arrays handed to the
+search, the flags, the sets handed to the model update, the stored results -- is compared with an independent computation.
+The constraint builders are path-enumerated symbolically (sa/builders.py).
 """
 import ast
+import collections
+import collections.abc
+import enum
+import random
 import re
 
 from ..src import walk, calls, call_name, last_attr, dotted, norm, loc, const, AnchorError, ExtractError, parent, unparse
 from ..cfg import CFG
 from .. import cxx
-from ._shared import final_stores, forced
+from .. import builders as B
+from ..cint import CInterp, CProgramError
+from ..concrete import World, stdlib_overrides, ProgramError, NDArr, AutoMock, Instance
+from ..symx import Constraint as SymConstraint, Opaque
 
 CORE = "wntr/sim/core.py"
 HYD = "wntr/sim/hydraulics.py"
 CON = "wntr/sim/models/constraint.py"
 CPP = "wntr/sim/network_isolation/network_isolation.cpp"
+BASE = "wntr/network/base.py"
 
 EXPLANATION = (
-    "Static analysis of the isolation machinery: (R-C09-1) the internal connectivity graph encodes a link as connected iff its status is not "
-    "Closed, both directions together, for every pipe, pump and valve; node pairs joined by several links share one entry that is recomputed as "
-    "'any link not Closed'; tanks and reservoirs are the sources; status changes since the 'graph' reference point are consumed and the reference "
-    "point reset; run_sim refreshes the graph before every isolation search; (R-C09-2) the C++ search seeds from every source, follows only "
-    "entries equal to 1, marks reached nodes 0 and scans num_connections[node] entries from indptr[node]; (R-C09-3) "
-    "_get_isolated_junctions_and_links clears every flag it set before, flags exactly the indicator-1 junctions and all their links, rebuilds the "
-    "model rows for the symmetric difference and stores the new sets; (R-C09-4) store_results_in_network reports 0 for head, demand, pressure "
-    "and leak of an isolated junction and 0 flow for an isolated link on every path, save_results reports 0 pressure, and every constraint "
-    "builder treats _is_isolated like Closed (q = 0 row), drops the balance / PDD / leak rows and re-registers on _is_isolated. "
-    "Decides these clauses; correctness of reachability on all graphs is not decided.")
-RULE_TEXT = "one instance = one encoding site, one search-shape fact, one flag store, one reported quantity per path, one builder; distinct = distinct constructs"
+    "Evaluation of the isolation machinery on mock networks (single links, parallel links drawn the same and the opposite way, pipes / pumps / "
+    "valves, Closed / Open / Active, stale flags, an unlinked last node) through three rounds of status changes: (R-C09-1) the arrays handed to the "
+    "search encode a node pair as connected (entry 1, both directions) iff any link joining it is not Closed, whatever else is true of the links, "
+    "with one row per node, row lengths in num_connections and all tanks and reservoirs as sources, after initialisation and after every update; the "
+    "update consumes and resets its change-tracker reference point; run_sim refreshes the graph before every search and searches before every solve; "
+    "(R-C09-2) the C++ search, evaluated on families of graphs, marks exactly the nodes an independent search reaches through entries equal to 1; the "
+    "Python caller hands over an all-ones indicator and the arrays in the order of the C signature; (R-C09-3) _get_isolated_junctions_and_links leaves "
+    "exactly the indicator-1 junctions and all their links flagged (older flags cleared), hands (previous sets, new sets) to the model update and "
+    "remembers the new sets; the model update rebuilds exactly the symmetric difference through '_is_isolated'; (R-C09-4) store_results_in_network "
+    "and save_results report 0 demand / pressure / leak and the elevation as head for an isolated junction and 0 flow for an isolated link in every "
+    "demand mode and leak state, never zero a connected one, and every constraint builder gives the q = 0 row to a Closed-or-isolated link, builds no "
+    "balance / PDD / leak row for an isolated junction and re-registers on _is_isolated. Decided on the finite families evaluated; reachability on all "
+    "graphs is not decided.")
+RULE_TEXT = ("one instance = one semantic fact of one evaluated scenario step (graph encoding per kind of node pair, search result per graph family, flag / set "
+             "state per search round, reported quantity, constraint builder); distinct = distinct constructs")
 ASSUMPTIONS = [
     "the compiled extension is built from the C++ source that is read (edits of the .cpp need a rebuild to take effect)",
-    "scipy's csr_matrix keeps explicit zero entries given at construction (closed links keep their slot)",
+    "scipy's csr_matrix sums duplicate entries, sorts the columns of a row and keeps explicit zero entries given at construction (modelled in sa/concrete.py)",
+    "the WaterNetworkModel accessors (nodes/links iterators, get_node, get_link, get_links_for_node with ALL/INLET/OUTLET, name lists, counts) and the element "
+    "properties (status from _user_status/_internal_status, head/demand/pressure/leak_demand/flow reading the underscored fields) behave as documented (mocked)",
+    "the SWIG typemaps bind one numpy array to each (long *, int) parameter pair in the order of the C signature",
 ]
 
 
+# ================================================================================================ helpers kept for C01 / C10 (AST level)
 def closed_test_polarity(test):
     """+1 if the test is `<x>.status == LinkStatus.Closed` (true branch = closed), -1 for `!=`, 0 otherwise."""
     if isinstance(test, ast.Compare) and len(test.ops) == 1 and "status" in unparse(test.left) and unparse(test.comparators[0]).endswith("LinkStatus.Closed"):
@@ -101,9 +121,8 @@ def const_stores(body, pred):
     return vals
 
 
-
 def pair_rules(ig, chk, rule):
-    """links of a node pair with several links are collected regardless of their direction (used by C09 and C01)."""
+    """links of a node pair with several links are collected regardless of their direction (AST level; used by C01)."""
     coll = [n for n in walk(ig) if isinstance(n, ast.For) and isinstance(n.iter, ast.Call) and last_attr(n.iter) == "get_links_for_node"
             and any(last_attr(c) == "append" for c in calls(n))]
     if not coll:
@@ -128,9 +147,754 @@ def pair_rules(ig, chk, rule):
                found="flag=%r test=%s" % (flag, unparse(memb[0].test) if memb else None))
 
 
+# ================================================================================================ mock world
+def link_status_enum(repo):
+    """LinkStatus as an IntEnum with the member values read from wntr/network/base.py"""
+    cls = repo.cls(BASE, "LinkStatus")
+    members = collections.OrderedDict()
+    for s in cls.body:
+        if isinstance(s, ast.Assign) and len(s.targets) == 1 and isinstance(s.targets[0], ast.Name) and isinstance(const(s.value), int):
+            members[s.targets[0].id] = const(s.value)
+    for need in ("Closed", "Open", "Active"):
+        if need not in members:
+            raise AnchorError("LinkStatus.%s vanished" % need)
+    if len({members["Closed"], members["Open"], members["Active"]}) != 3:
+        raise ExtractError("LinkStatus: Closed / Open / Active are not distinct")
+    return enum.IntEnum("LinkStatus", list(members.items()))
+
+
+class OrderedSet(collections.abc.MutableSet):
+    """wntr.utils.ordered_set.OrderedSet (insertion ordered; union / difference return OrderedSets)"""
+    _sa_mock = True
+
+    def __init__(self, iterable=None):
+        self._data = collections.OrderedDict()
+        if iterable is not None:
+            self.update(iterable)
+
+    def __contains__(self, item):
+        return item in self._data
+
+    def __iter__(self):
+        return iter(list(self._data))
+
+    def __len__(self):
+        return len(self._data)
+
+    def add(self, value):
+        self._data[value] = None
+
+    def discard(self, value):
+        self._data.pop(value, None)
+
+    def update(self, iterable):
+        for i in iterable:
+            self.add(i)
+
+    def union(self, iterable):
+        ret = OrderedSet(self)
+        for i in iterable:
+            ret.add(i)
+        return ret
+
+    def difference(self, other):
+        return self - other
+
+    def __sub__(self, other):
+        ret = OrderedSet(self)
+        for i in other:
+            ret.discard(i)
+        return ret
+
+    def __repr__(self):
+        return "{" + "".join(str(i) + ", " for i in self) + "}"
+
+    __str__ = __repr__
+    __hash__ = None
+
+
+class _El(object):
+    _sa_mock = True
+
+    def __repr__(self):
+        return "<%s %s>" % (type(self).__name__[1:], self.name)
+
+    def todict(self):
+        return {}
+
+
+class MNode(_El):
+    node_type = "Node"
+
+    def __init__(self, name, elevation):
+        self.name = self._name = name
+        self.elevation = elevation
+        self._is_isolated = False
+        self._head = None
+        self._demand = None
+        self._pressure = None
+        self._leak_demand = None
+        self._leak_status = False
+        self._leak = False
+        self.leak_area = 0.01
+        self.leak_discharge_coeff = 0.75
+        self._prev_head = None
+        self._prev_demand = None
+        self._prev_leak_demand = None
+        self.tag = None
+        self.coordinates = (0.0, 0.0)
+
+    head = property(lambda s: s._head)
+    demand = property(lambda s: s._demand)
+    pressure = property(lambda s: s._pressure)
+    leak_demand = property(lambda s: s._leak_demand)
+    leak_status = property(lambda s: s._leak_status)
+
+
+class MJunction(MNode):
+    node_type = "Junction"
+
+    def __init__(self, name, elevation):
+        MNode.__init__(self, name, elevation)
+        self.base_demand = 0.001
+        self.minimum_pressure = None
+        self.required_pressure = None
+        self.pressure_exponent = None
+        self.emitter_coefficient = None
+
+
+class MTank(MNode):
+    node_type = "Tank"
+
+    def __init__(self, name, elevation):
+        MNode.__init__(self, name, elevation)
+        self.init_level = 3.0
+        self.min_level = 0.0
+        self.max_level = 10.0
+        self.diameter = 10.0
+        self.level = 3.0
+        self.overflow = False
+        self.vol_curve = None
+
+
+class _TS(object):
+    _sa_mock = True
+
+    def __init__(self, v):
+        self.base_value = v
+
+    def at(self, t):
+        return self.base_value
+
+    __call__ = at
+
+
+class MReservoir(MNode):
+    node_type = "Reservoir"
+
+    def __init__(self, name, elevation):
+        MNode.__init__(self, name, elevation)
+        self.base_head = elevation
+        self.head_timeseries = _TS(elevation)
+
+
+class MLink(_El):
+    link_type = "Link"
+
+    def __init__(self, name, start, end, LS):
+        self.name = self._link_name = name
+        self.start_node, self.end_node = start, end
+        self.start_node_name, self.end_node_name = start.name, end.name
+        self._LS = LS
+        self._user_status = LS.Open
+        self._internal_status = LS.Active
+        self.initial_status = LS.Open
+        self._is_isolated = False
+        self._flow = None
+        self._prev_flow = None
+        self.diameter = 0.3
+        self.length = 100.0
+        self.roughness = 100.0
+        self.minor_loss = 0.0
+        self.setting = 1.0
+        self._setting = 1.0
+        self.initial_setting = 1.0
+        self.check_valve = False
+        self.cv = False
+        self.tag = None
+        self.vertices = []
+
+    flow = property(lambda s: s._flow)
+
+    @property
+    def status(self):
+        if self._internal_status == self._LS.Closed:
+            return self._LS.Closed
+        return self._user_status
+
+    def set_effective(self, st, variant=0):
+        """make `status` read st; the definition field initial_status is set to the opposite on purpose"""
+        LS = self._LS
+        if st == LS.Closed and variant:
+            self._user_status, self._internal_status = LS.Open, LS.Closed
+        else:
+            self._user_status, self._internal_status = st, LS.Active
+        self.initial_status = LS.Open if st == LS.Closed else LS.Closed
+
+
+class MPipe(MLink):
+    link_type = "Pipe"
+
+
+class MPump(MLink):
+    link_type = "Pump"
+    pump_type = "POWER"
+
+    def __init__(self, *a):
+        MLink.__init__(self, *a)
+        self.speed_timeseries = _TS(1.0)
+        self.power = 1000.0
+        self.base_speed = 1.0
+        self._base_power = 1000.0
+
+
+class MHeadPump(MPump):
+    pump_type = "HEAD"
+
+    def get_head_curve_coefficients(self):
+        return (50.0, 0.01, 2.0)
+
+    def get_pump_curve(self):
+        return AutoMock("pump_curve")
+
+
+class MPowerPump(MPump):
+    pump_type = "POWER"
+
+
+class MValve(MLink):
+    link_type = "Valve"
+    valve_type = "PRV"
+
+    @property
+    def status(self):
+        LS = self._LS
+        if self._user_status == LS.Closed:
+            return LS.Closed
+        if self._user_status == LS.Open:
+            return LS.Open
+        return self._internal_status
+
+    def set_effective(self, st, variant=0):
+        LS = self._LS
+        if st == LS.Active:
+            self._user_status, self._internal_status = LS.Active, LS.Active
+        elif st == LS.Closed and variant:
+            self._user_status, self._internal_status = LS.Active, LS.Closed
+        else:
+            self._user_status, self._internal_status = st, LS.Active
+        self.initial_status = LS.Open if st == LS.Closed else LS.Closed
+
+
+class MPRValve(MValve):
+    valve_type = "PRV"
+
+
+class MPSValve(MValve):
+    valve_type = "PSV"
+
+
+class MPBValve(MValve):
+    valve_type = "PBV"
+
+
+class MFCValve(MValve):
+    valve_type = "FCV"
+
+
+class MTCValve(MValve):
+    valve_type = "TCV"
+
+
+class MGPValve(MValve):
+    valve_type = "GPV"
+
+
+class _Registry(object):
+    """wn.nodes / wn.links: callable (iterate (name, obj) pairs), subscriptable, iterable over names"""
+    _sa_mock = True
+
+    def __init__(self, items):
+        self._items = items          # OrderedDict name -> obj
+
+    def __call__(self, kind=None):
+        return iter([(k, v) for k, v in self._items.items() if kind is None or isinstance(v, kind)])
+
+    def __getitem__(self, k):
+        return self._items[k]
+
+    def __iter__(self):
+        return iter(list(self._items))
+
+    def __len__(self):
+        return len(self._items)
+
+    def __contains__(self, k):
+        return k in self._items
+
+    def keys(self):
+        return list(self._items)
+
+    def values(self):
+        return list(self._items.values())
+
+    def items(self):
+        return list(self._items.items())
+
+
+class _NS(object):
+    _sa_mock = True
+
+    def __init__(self, **kw):
+        self.__dict__.update(kw)
+
+
+_NODE_KINDS = collections.OrderedDict([("junction", MJunction), ("tank", MTank), ("reservoir", MReservoir)])
+_LINK_KINDS = collections.OrderedDict([("pipe", MPipe), ("pump", MPump), ("valve", MValve), ("head_pump", MHeadPump), ("power_pump", MPowerPump),
+                                       ("prv", MPRValve), ("psv", MPSValve), ("pbv", MPBValve), ("fcv", MFCValve), ("tcv", MTCValve), ("gpv", MGPValve)])
+
+
+class MockWN(object):
+    """the documented accessor surface of WaterNetworkModel over a fixed set of mock elements"""
+    _sa_mock = True
+
+    def __init__(self, LS, nodes, links, demand_model="DD"):
+        self._LS = LS
+        nd = collections.OrderedDict()
+        for name, kind, elev in nodes:
+            nd[name] = _NODE_KINDS[kind](name, elev)
+        ld = collections.OrderedDict()
+        for name, kind, a, b, st, variant in links:
+            l = _LINK_KINDS[kind](name, nd[a], nd[b], LS)
+            l.set_effective(getattr(LS, st), variant)
+            ld[name] = l
+        self.nodes = _Registry(nd)
+        self.links = _Registry(ld)
+        self.name = "mock"
+        self.sim_time = 0
+        self._prev_sim_time = None
+        self.options = _NS(hydraulic=_NS(demand_model=demand_model, trials=200, headloss="H-W", minimum_pressure=0.0, required_pressure=0.07, pressure_exponent=0.5,
+                                         inpfile_units="LPS", accuracy=0.001, demand_multiplier=1.0, emitter_exponent=0.5, viscosity=1.0, specific_gravity=1.0),
+                           time=_NS(duration=0, hydraulic_timestep=3600, report_timestep=3600, rule_timestep=360, pattern_timestep=3600, start_clocktime=0))
+        for nm, cls in _NODE_KINDS.items():
+            self._add_kind(nm, cls, self.nodes)
+        for nm, cls in _LINK_KINDS.items():
+            self._add_kind(nm, cls, self.links)
+
+    def _add_kind(self, nm, cls, reg):
+        plural = nm + "s"
+        setattr(self, plural, lambda reg=reg, cls=cls: reg(cls))
+        setattr(self, nm + "_name_list", [k for k, v in reg.items() if isinstance(v, cls)])
+        setattr(self, "num_" + plural, len([k for k, v in reg.items() if isinstance(v, cls)]))
+
+    num_nodes = property(lambda s: len(s.nodes))
+    num_links = property(lambda s: len(s.links))
+    node_name_list = property(lambda s: s.nodes.keys())
+    link_name_list = property(lambda s: s.links.keys())
+
+    def get_node(self, name):
+        return self.nodes[name]
+
+    def get_link(self, name):
+        return self.links[name]
+
+    def get_links_for_node(self, node_name, flag="ALL"):
+        f = flag.upper()
+        if f not in ("ALL", "INLET", "OUTLET"):
+            raise ValueError("Unrecognized flag: %s" % flag)
+        if node_name not in self.nodes:
+            raise KeyError(node_name)
+        out = []
+        for k, l in self.links.items():
+            if (f in ("ALL", "OUTLET") and l.start_node_name == node_name) or (f in ("ALL", "INLET") and l.end_node_name == node_name):
+                out.append(k)
+        return out
+
+    # -- harness side
+    def neighbours(self):
+        """{frozenset({a, b}): [links]}"""
+        out = collections.OrderedDict()
+        for k, l in self.links.items():
+            out.setdefault(frozenset((l.start_node_name, l.end_node_name)), []).append(l)
+        return out
+
+
+class MTracker(object):
+    """ControlChangeTracker: per reference point the set of (object, attribute) changed since it was (re)set"""
+    _sa_mock = True
+
+    def __init__(self):
+        self.log = []
+        self.cursor = {}
+        self.used = []
+        self.resets = []
+
+    def _pending(self, key):
+        seen, out = set(), []
+        for oa in self.log[self.cursor.setdefault(key, 0):]:
+            if (id(oa[0]), oa[1]) not in seen:
+                seen.add((id(oa[0]), oa[1]))
+                out.append(oa)
+        return out
+
+    def set_reference_point(self, key):
+        self.cursor[key] = len(self.log)
+
+    def reset_reference_point(self, key):
+        self.cursor[key] = len(self.log)
+        self.resets.append(key)
+
+    def remove_reference_point(self, key):
+        self.cursor.pop(key, None)
+
+    def clear_all_reference_points(self):
+        self.cursor.clear()
+
+    def changes_made(self, ref_point):
+        return len(self._pending(ref_point)) > 0
+
+    def get_changes(self, ref_point):
+        self.used.append(ref_point)
+        return iter(self._pending(ref_point))
+
+    def register_control(self, control):
+        pass
+
+    def deregister(self, control):
+        pass
+
+    def update(self, subject):
+        pass
+
+    # harness side
+    def record(self, obj, attr):
+        self.log.append((obj, attr))
+
+
+class MUpdater(object):
+    _sa_mock = True
+
+    def __init__(self):
+        self.updates = []
+        self.adds = []
+
+    def update(self, m, wn, obj, attr):
+        self.updates.append((m, wn, obj, attr))
+
+    def add(self, obj, attr, func):
+        self.adds.append((obj, attr, func))
+
+
+class _Var(object):
+    _sa_mock = True
+
+    def __init__(self, value):
+        self.value = value
+
+
+class _VarDict(object):
+    """m.<field>[name].value: a distinct, recognisable number per (field, name)"""
+    _sa_mock = True
+
+    def __init__(self, field, base):
+        self.field, self.base, self.names = field, base, {}
+
+    def __getitem__(self, name):
+        if name not in self.names:
+            self.names[name] = _Var(self.base + 0.125 * (len(self.names) + 1))
+        return self.names[name]
+
+    def __contains__(self, name):
+        return True
+
+
+class MModel(object):
+    _sa_mock = True
+
+    def __init__(self):
+        self._fields = {}
+
+    def __getattr__(self, a):
+        if a.startswith("_"):
+            raise AttributeError(a)
+        f = self.__dict__["_fields"]
+        if a not in f:
+            f[a] = _VarDict(a, 1000.0 * (len(f) + 1))
+        return f[a]
+
+
+def make_world(repo, LS, extra=None):
+    ov, state = stdlib_overrides()
+    inert = AutoMock
+    ov.update({
+        "wntr.network.base.LinkStatus": LS, "wntr.network.base.Node": MNode, "wntr.network.base.Link": MLink,
+        "wntr.network.elements.Junction": MJunction, "wntr.network.elements.Tank": MTank, "wntr.network.elements.Reservoir": MReservoir,
+        "wntr.network.elements.Pipe": MPipe, "wntr.network.elements.Pump": MPump, "wntr.network.elements.HeadPump": MHeadPump,
+        "wntr.network.elements.PowerPump": MPowerPump, "wntr.network.elements.Valve": MValve, "wntr.network.elements.PRValve": MPRValve,
+        "wntr.network.elements.PSValve": MPSValve, "wntr.network.elements.PBValve": MPBValve, "wntr.network.elements.FCValve": MFCValve,
+        "wntr.network.elements.TCValve": MTCValve, "wntr.network.elements.GPValve": MGPValve,
+        "wntr.network.model.WaterNetworkModel": MockWN,
+        "wntr.utils.ordered_set.OrderedSet": OrderedSet,
+        "wntr.network.controls.ControlChangeTracker": MTracker,
+        "wntr.network.controls.ControlChecker": inert("ControlChecker"),
+        "wntr.sim.solvers.NewtonSolver": inert("NewtonSolver"),
+        "wntr.sim.models.utils.ModelUpdater": MUpdater,
+        "wntr.sim.network_isolation.get_long_size": lambda: 8,
+        "wntr.sim.network_isolation.network_isolation.get_long_size": lambda: 8,
+        "pandas": inert("pandas"), "networkx": inert("networkx"), "plotly": inert("plotly"), "json": inert("json"), "os": inert("os"), "sys": inert("sys"),
+        "time": inert("time"), "typing": inert("typing"), "enum": inert("enum"), "abc": inert("abc"),
+    })
+    ov.update(extra or {})
+    return World(repo, ov), state
+
+
+# ------------------------------------------------------------------------------------------------ the scenario network
+#  (name, kind, start, end, effective status, variant of how the status is represented)
+NODES = [("J1", "junction", 10.0), ("R1", "reservoir", 50.0), ("J2", "junction", 11.0), ("J3", "junction", 12.0), ("T1", "tank", 40.0), ("J4", "junction", 13.0),
+         ("J5", "junction", 14.0), ("J6", "junction", 15.0), ("J7", "junction", 16.0), ("J8", "junction", 17.0), ("J9", "junction", 18.0), ("J10", "junction", 19.0),
+         ("JL", "junction", 20.0)]
+LINKS = [("P1", "pipe", "R1", "J1", "Open", 0), ("P2", "pipe", "J1", "J2", "Closed", 1), ("P3", "pipe", "J2", "J3", "Open", 0), ("PU1", "head_pump", "T1", "J3", "Closed", 0),
+         ("P4", "pipe", "J1", "J4", "Closed", 0), ("P5", "pipe", "J4", "J1", "Open", 0), ("V1", "prv", "J4", "J5", "Active", 0), ("P6", "pipe", "J4", "J5", "Closed", 0),
+         ("P7", "pipe", "J6", "J5", "Closed", 0), ("P8", "pipe", "J5", "J6", "Closed", 1), ("P9", "pipe", "J7", "J1", "Open", 0), ("P10", "pipe", "J1", "J7", "Closed", 0),
+         ("P11", "pipe", "J7", "J8", "Closed", 0), ("P12", "pipe", "J7", "J8", "Closed", 1), ("P13", "pipe", "J8", "J7", "Open", 0), ("PU2", "power_pump", "J8", "J9", "Open", 0),
+         ("V2", "tcv", "J3", "J2", "Closed", 1), ("V3", "fcv", "J9", "J10", "Open", 0)]
+#  rounds of status changes (link, new status, variant) applied between searches; plus changes that are not status changes of links
+ROUNDS = [
+    [("PU1", "Open", 0), ("P1", "Closed", 1), ("P5", "Closed", 0), ("P4", "Open", 0), ("V1", "Closed", 1), ("P7", "Open", 0), ("V2", "Active", 0), ("P3", "Closed", 0)],
+    [("P1", "Open", 0), ("PU1", "Closed", 1), ("V1", "Active", 0), ("P11", "Open", 0), ("P13", "Closed", 0), ("V2", "Closed", 1), ("P3", "Open", 0)],
+]
+OTHER_CHANGES = [("V1", "setting"), ("J1", "leak_status"), ("T1", "leak_status"), ("PU2", "base_speed")]
+
+
+def expected_isolated(wn):
+    """independent computation: junctions with no path of non-Closed links to a tank or reservoir, and all links attached to them"""
+    LS = wn._LS
+    adj = collections.defaultdict(set)
+    for k, l in wn.links.items():
+        if l.status != LS.Closed:
+            adj[l.start_node_name].add(l.end_node_name)
+            adj[l.end_node_name].add(l.start_node_name)
+    seen = set(k for k, n in wn.nodes.items() if isinstance(n, (MTank, MReservoir)))
+    todo = list(seen)
+    while todo:
+        u = todo.pop()
+        for v in adj[u]:
+            if v not in seen:
+                seen.add(v)
+                todo.append(v)
+    iso = [k for k in wn.nodes.keys() if k not in seen]
+    isl = [k for k, l in wn.links.items() if l.start_node_name in iso or l.end_node_name in iso]
+    return iso, isl
+
+
+def reach(sources, indptr, indices, data, nconn, n):
+    """independent search on the arrays: nodes reached from the sources through entries equal to 1 -> indicator list"""
+    ind = [1] * n
+    todo = []
+    for s in sources:
+        if ind[s] == 1:
+            ind[s] = 0
+            todo.append(s)
+    while todo:
+        u = todo.pop(0)
+        for k in range(indptr[u], indptr[u] + nconn[u]):
+            if data[k] == 1 and ind[indices[k]] == 1:
+                ind[indices[k]] = 0
+                todo.append(indices[k])
+    return ind
+
+
+ROLES = ("sources", "node_indicator", "indptr", "indices", "data", "num_connections")
+
+
+def c_signature(repo):
+    """array parameters of the exported C function in order: each `long *x` followed by its `int` length"""
+    cpp = repo.source(CPP)
+    m = re.search(r"void\s+check_for_isolated_junctions\s*\(([^)]*)\)", cxx.strip_comments(cpp))
+    if not m:
+        raise AnchorError("C++ function check_for_isolated_junctions not found")
+    params = [p.strip() for p in m.group(1).split(",")]
+    out = []
+    for p in params:
+        out.append((p.split()[-1].lstrip("*&"), "*" in p))
+    arrays = [nm for nm, is_ptr in out if is_ptr]
+    if sorted(arrays) != sorted(ROLES):
+        raise AnchorError("check_for_isolated_junctions: array parameters are %s, expected %s" % (arrays, list(ROLES)))
+    # every array is followed by its length
+    for i, (nm, is_ptr) in enumerate(out):
+        if is_ptr and (i + 1 >= len(out) or out[i + 1][1]):
+            raise ExtractError("check_for_isolated_junctions: array parameter %s is not followed by its length" % nm)
+    return out, arrays
+
+
+class Capture(object):
+    """stands in for the compiled search: binds the caller's positional arrays to the C parameter names, keeps a snapshot and marks the
+    reached nodes by an independent search (so the flag life cycle is judged independently of the C++ body)"""
+
+    def __init__(self, arrays):
+        self.arrays = arrays
+        self.calls = []
+        self.problems = []
+
+    def __call__(self, *args, **kwargs):
+        if kwargs or len(args) != len(self.arrays):
+            raise ProgramError(TypeError("check_for_isolated_junctions() takes %d arrays, %d given" % (len(self.arrays), len(args) + len(kwargs))))
+        bound = dict(zip(self.arrays, args))
+        snap = {k: (list(v.v) if isinstance(v, NDArr) else (list(v) if isinstance(v, (list, tuple)) else v)) for k, v in bound.items()}
+        rec = {"snap": snap, "valid": None, "after": None}
+        self.calls.append(rec)
+        rec["valid"] = self.validate(snap, bound)
+        if rec["valid"] is None:
+            n = len(snap["node_indicator"])
+            ind = reach(snap["sources"], snap["indptr"], snap["indices"], snap["data"], snap["num_connections"], n)
+            # marks reached nodes 0 in place; nodes the caller did not present as unreached (1) are left alone, like the C function does
+            tgt = bound["node_indicator"]
+            for i in range(n):
+                if ind[i] == 0:
+                    tgt[i] = 0
+            rec["after"] = list(tgt.v)
+        return None
+
+    @staticmethod
+    def validate(s, bound):
+        for k, v in s.items():
+            if not isinstance(v, list) or any(isinstance(x, bool) or not isinstance(x, int) for x in v):
+                return "%s is not an integer array (%r)" % (k, v if not isinstance(v, list) else v[:6])
+        if not isinstance(bound["node_indicator"], NDArr):
+            return "node_indicator must be a numpy array (it is modified in place)"
+        n = len(s["node_indicator"])
+        ip = s["indptr"]
+        if len(ip) != n + 1:
+            return "indptr has %d entries for %d nodes (one row per node expected)" % (len(ip), n)
+        if ip[0] != 0 or any(a > b for a, b in zip(ip[:-1], ip[1:])) or ip[-1] != len(s["indices"]) or len(s["indices"]) != len(s["data"]):
+            return "indptr / indices / data do not form a CSR structure (indptr %s, %d indices, %d data)" % (ip, len(s["indices"]), len(s["data"]))
+        if any(not (0 <= c < n) for c in s["indices"]):
+            return "indices outside 0..%d" % (n - 1)
+        if len(s["num_connections"]) != n:
+            return "num_connections has %d entries for %d nodes" % (len(s["num_connections"]), n)
+        if any(not (0 <= c and ip[i] + c <= len(s["data"])) for i, c in enumerate(s["num_connections"])):
+            return "num_connections points outside the data array"
+        if any(not (0 <= x < n) for x in s["sources"]):
+            return "sources outside 0..%d" % (n - 1)
+        return None
+
+
+def name_id_map(sim, wn):
+    """the simulator's node numbering, found by content: the dict that maps every node name to a distinct id in 0..n-1"""
+    names = set(wn.nodes.keys())
+    for v in sim._attrs.values():
+        if isinstance(v, dict) and set(v.keys()) == names and sorted(v.values()) == list(range(len(names))):
+            return dict(v)
+    raise ExtractError("WNTRSimulator: no attribute maps every node name to an id in 0..n-1 after construction")
+
+
+def graph_facts(wn, n2i, snap):
+    """compare the arrays handed to the search with the network: -> dict category -> list of mismatch texts"""
+    LS = wn._LS
+    i2n = {i: k for k, i in n2i.items()}
+    n = len(n2i)
+    ip, ix, dt, nc = snap["indptr"], snap["indices"], snap["data"], snap["num_connections"]
+    out = {"single": [], "same": [], "opposite": [], "rows": [], "sources": [], "spurious": []}
+    if len(ip) != n + 1:
+        out["rows"].append("indptr has %d entries for %d nodes" % (len(ip), n))
+        return out
+    for a in range(n):
+        if nc[a] != ip[a + 1] - ip[a]:
+            out["rows"].append("node %s: num_connections %d, row length %d" % (i2n[a], nc[a], ip[a + 1] - ip[a]))
+
+    def conn(a, b):
+        return any(dt[k] == 1 for k in range(ip[a], ip[a] + nc[a]) if ix[k] == b)
+    pairs = wn.neighbours()
+    for pr, ls in pairs.items():
+        if len(pr) == 1:
+            continue
+        a, b = sorted(pr, key=lambda x: n2i[x])
+        exp = any(l.status != LS.Closed for l in ls)
+        got = (conn(n2i[a], n2i[b]), conn(n2i[b], n2i[a]))
+        if got != (exp, exp):
+            dirs = {(l.start_node_name, l.end_node_name) for l in ls}
+            cat = "single" if len(ls) == 1 else ("same" if len(dirs) == 1 else "opposite")
+            desc = ", ".join("%s %s->%s %s%s%s" % (l.name, l.start_node_name, l.end_node_name, l.status.name,
+                                                   " (stale _is_isolated flag)" if l._is_isolated else "",
+                                                   " (initial_status %s)" % l.initial_status.name if l.initial_status != l.status else "") for l in ls)
+            out[cat].append("%s-%s: graph says %s->%s %s, %s->%s %s, expected %s [%s]" % (a, b, a, b, "connected" if got[0] else "cut", b, a,
+                                                                                       "connected" if got[1] else "cut", "connected" if exp else "cut", desc))
+    for a in range(n):
+        for k in range(ip[a], ip[a] + nc[a]):
+            if dt[k] == 1 and frozenset((i2n[a], i2n[ix[k]])) not in pairs:
+                out["spurious"].append("%s->%s is connected in the graph but no link joins them" % (i2n[a], i2n[ix[k]]))
+    want = sorted(n2i[k] for k, nd in wn.nodes.items() if isinstance(nd, (MTank, MReservoir)))
+    if sorted(set(snap["sources"])) != want:
+        out["sources"].append("sources %s, tanks and reservoirs are %s" % (sorted(i2n.get(s, s) for s in snap["sources"]), [i2n[s] for s in want]))
+    return out
+
+
+# ================================================================================================ path conditions of the builders
+def forced_atoms(conds, pred):
+    """value the path conditions force on the boolean atoms selected by pred(text): True / False / None (not determined).
+    `A and B` true forces both, `A or B` false forces both false, `not A` flips, `A == False` / `A is False` flip, `A == True` keeps."""
+    res = []
+
+    def walk_(node, val):
+        if isinstance(node, ast.UnaryOp) and isinstance(node.op, ast.Not):
+            walk_(node.operand, not val)
+            return
+        if isinstance(node, ast.Compare) and len(node.ops) == 1 and isinstance(node.ops[0], (ast.Eq, ast.Is, ast.NotEq, ast.IsNot)) \
+                and isinstance(node.comparators[0], ast.Constant) and isinstance(node.comparators[0].value, bool):
+            same = isinstance(node.ops[0], (ast.Eq, ast.Is)) == node.comparators[0].value
+            walk_(node.left, val if same else not val)
+            return
+        if isinstance(node, ast.BoolOp):
+            if isinstance(node.op, ast.And) and val is True:
+                for v in node.values:
+                    walk_(v, True)
+            elif isinstance(node.op, ast.Or) and val is False:
+                for v in node.values:
+                    walk_(v, False)
+            elif len(node.values) == 1:
+                walk_(node.values[0], val)
+            return
+        if pred(ast.unparse(node)):
+            res.append(val)
+    for k, v in conds:
+        try:
+            walk_(ast.parse(k, mode="eval").body, bool(v))
+        except SyntaxError:
+            continue
+    if True in res and False in res:
+        return None
+    return res[0] if res else None
+
+
+_ISO = lambda t: t.endswith("._is_isolated") or t == "_is_isolated"
+_CLOSED = lambda t: bool(re.match(r"^.*status\s*(==|is)\s*(\w+\.)*LinkStatus\.Closed$", t) or re.match(r"^(\w+\.)*LinkStatus\.Closed\s*(==|is)\s*.*status$", t))
+_NOTCLOSED = lambda t: bool(re.match(r"^.*status\s*(!=|is not)\s*(\w+\.)*LinkStatus\.Closed$", t))
+
+
+def closed_forced(conds):
+    a = forced_atoms(conds, _CLOSED)
+    b = forced_atoms(conds, _NOTCLOSED)
+    if a is not None:
+        return a
+    if b is not None:
+        return not b
+    return None
+
+
+# ================================================================================================ the rules
 def run(repo, chk):
-    sim = repo.cls(CORE, "WNTRSimulator")
-    meths = {n.name: n for n in sim.body if isinstance(n, ast.FunctionDef)}
+    sim_cls = repo.cls(CORE, "WNTRSimulator")
+    meths = {n.name: n for n in sim_cls.body if isinstance(n, ast.FunctionDef)}
     for n in meths.values():
         n._rel = CORE
         n._qual = "WNTRSimulator." + n.name
@@ -139,105 +903,154 @@ def run(repo, chk):
             raise AnchorError("WNTRSimulator.%s vanished" % need)
     ig, ug, gi, rs = meths["_initialize_internal_graph"], meths["_update_internal_graph"], meths["_get_isolated_junctions_and_links"], meths["run_sim"]
     chk.fn(ig, ug, gi, rs)
+    LS = link_status_enum(repo)
+    sig, arrays = c_signature(repo)
 
-    # ---------------------------------------------------------------- R-C09-1 graph encoding
-    # (a) initial values: closed -> 0,0 ; else 1,1
-    is_vals = lambda n: isinstance(n, ast.Call) and isinstance(n.func, ast.Attribute) and n.func.attr == "append" and unparse(n.func.value) == "vals"
-    enc = status_guards(ig, is_vals)
-    if not enc:
-        raise ExtractError("_initialize_internal_graph: status -> vals encoding not found")
-    e0 = enc[0]
-    wc, wo, other = status_encoding_table(e0.test)
-    then_vals = const_stores(e0.body, is_vals)
-    else_vals = const_stores(e0.orelse, is_vals)
-    # the branch taken must be a function of "status is Closed" alone
-    chk.expect(len(wc) == 1 and len(wo) == 1 and wc != wo, "R-C09-1", "initial graph: whether a link is connected depends on its status being Closed and on nothing else", loc(ig, e0),
-               "a link that is not closed must be connected whatever else is true of it (a path of non-closed links is never cut); other atoms in the guard: %s" % other,
-               expected="guard true iff status == Closed (or its negation)", found=unparse(e0.test))
-    if len(wc) == 1 and len(wo) == 1 and wc != wo:
-        closed_vals = then_vals if True in wc else else_vals
-        open_vals = else_vals if True in wc else then_vals
-    else:
-        closed_vals, open_vals = then_vals, else_vals
-    chk.expect(closed_vals == [0, 0] and open_vals == [1, 1], "R-C09-1", "initial graph: a link contributes 0,0 iff its status is Closed, else 1,1 (both directions)", loc(ig, e0),
-               "the connectivity entry of a link must be 0 exactly when it is closed", expected="closed [0, 0] / otherwise [1, 1]", found="closed %s / otherwise %s" % (closed_vals, open_vals))
-    chk.expect("link.status" in unparse(e0.test), "R-C09-1", "initial graph uses the effective status (link.status), not the user or initial status", loc(ig, e0), found=unparse(e0.test))
-    # symmetric rows/cols
-    loop0 = e0
-    while loop0 is not None and not isinstance(loop0, ast.For):
-        loop0 = parent(loop0)
-    rc = [(unparse(c.func.value), unparse(c.args[0])) for c in calls(loop0) if isinstance(c.func, ast.Attribute) and c.func.attr == "append" and unparse(c.func.value) in ("rows", "cols")]
-    chk.expect(sorted(rc) == sorted([("rows", "from_node_id"), ("cols", "to_node_id"), ("rows", "to_node_id"), ("cols", "from_node_id")]), "R-C09-1",
-               "initial graph stores every link in both directions (from,to) and (to,from)", loc(ig, loop0), found=rc)
-    it = unparse(loop0.iter)
-    kinds = {k for k in ("pipes", "pumps", "valves") if ("%s()" % k) in it}
-    chk.expect(kinds == {"pipes", "pumps", "valves"} or "links()" in it, "R-C09-1", "initial graph ranges over every pipe, pump and valve", loc(ig, loop0), found=it)
-    names = {"from_node_name": None, "to_node_name": None}
-    for s in walk(loop0):
-        if isinstance(s, ast.Assign) and isinstance(s.targets[0], ast.Name) and s.targets[0].id in names:
-            names[s.targets[0].id] = unparse(s.value)
-    chk.expect(set(names.values()) == {"link.start_node_name", "link.end_node_name"}, "R-C09-1", "graph end points are the link's start and end node", loc(ig, loop0), found=names)
-    # the graph has one row per node: its shape is given, not inferred from the largest node id that has a link
-    mk = [c for c in calls(ig) if (call_name(c) or "").endswith("csr_matrix")]
-    if not mk:
-        raise ExtractError("_initialize_internal_graph: csr_matrix construction not found")
-    shp = [k for k in mk[0].keywords if k.arg == "shape"]
-    chk.expect(bool(shp) and unparse(shp[0].value).replace(" ", "") in ("(self._wn.num_nodes,self._wn.num_nodes)", "(len(self._node_name_to_id),len(self._node_name_to_id))"), "R-C09-1",
-               "the connectivity matrix is built with an explicit shape of num_nodes x num_nodes", loc(ig, mk[0]),
-               "csr_matrix((vals, (rows, cols))) infers its shape from the largest linked node id: a junction without links that happens to be the last node makes indptr too short "
-               "and the simulator raises IndexError instead of reporting it isolated", expected="shape=(num_nodes, num_nodes)", found=norm(mk[0]))
-    # parallel links: shared entry reset to 0, then 1 if any link is not Closed (init and update)
-    for fn, label in ((ig, "initial graph"), (ug, "graph update")):
-        ok = False
-        found = ""
-        for lp in [n for n in walk(fn) if isinstance(n, ast.For) and "_node_pairs_with_multiple_links" in unparse(n.iter) or (isinstance(n, ast.For) and "n_links" in unparse(n.iter))]:
-            zero = [s for s in walk(lp) if isinstance(s, ast.Assign) and const(s.value) == 0 and ("_internal_graph" in unparse(s.targets[0]) or unparse(s.targets[0]).startswith("data["))]
-            ones = []
-            for c in [n for n in walk(lp) if isinstance(n, ast.If) and closed_test_polarity(n.test) == -1]:
-                ones += [s for s in c.body if isinstance(s, ast.Assign) and const(s.value) == 1]
-            wrong = [n for n in walk(lp) if isinstance(n, ast.If) and closed_test_polarity(n.test) == 1 and any(isinstance(s, ast.Assign) and const(s.value) == 1 for s in n.body)]
-            if len(zero) >= 2 and len(ones) >= 2 and not wrong and min(z.lineno for z in zero) < min(o.lineno for o in ones):
-                ok = True
-            # equivalent idiom: entry = int(any(link.status != Closed for link in links)) / not all(link.status == Closed ...)
-            for c in [x for x in walk(lp) if isinstance(x, ast.Call) and isinstance(x.func, ast.Name) and x.func.id in ("any", "all") and x.args
-                      and isinstance(x.args[0], (ast.GeneratorExp, ast.ListComp))]:
-                pol_ = closed_test_polarity(c.args[0].elt)
-                negated = isinstance(parent(c), ast.UnaryOp) and isinstance(parent(c).op, ast.Not)
-                if (c.func.id == "any" and pol_ == -1 and not negated) or (c.func.id == "all" and pol_ == 1 and negated):
-                    stores_ = [s for s in walk(lp) if isinstance(s, ast.Assign) and (unparse(s.targets[0]).startswith("data[") or "_internal_graph" in unparse(s.targets[0]))]
-                    if len(stores_) >= 2:
-                        ok = True
-            found = "zero stores %d, one-if-not-closed stores %d, one-if-closed %d" % (len(zero), len(ones), len(wrong))
-        chk.expect(ok, "R-C09-1", "%s: a node pair joined by several links is connected iff any of them is not Closed (entry reset to 0, then set to 1)" % label, loc(fn),
-                   "parallel links share one graph entry", found=found)
-    # the list of links joining one node pair is orientation independent: a link drawn b->a beside a->b belongs to the same pair
-    pair_rules(ig, chk, "R-C09-1")
-    # (b) update on status change
-    is_data = lambda n: isinstance(n, ast.Assign) and unparse(n.targets[0]).startswith("data[")
-    upd = [n for n in status_guards(ug, is_data) if "obj" in unparse(n.test)]
-    if not upd:
-        raise ExtractError("_update_internal_graph: status change encoding not found")
-    u0 = upd[0]
-    wc, wo, other = status_encoding_table(u0.test)
-    chk.expect(len(wc) == 1 and len(wo) == 1 and wc != wo, "R-C09-1", "graph update: whether a link is connected depends on its status being Closed and on nothing else", loc(ug, u0),
-               "other atoms in the guard: %s" % other, found=unparse(u0.test))
-    cv = const_stores(u0.body if True in wc else u0.orelse, is_data)
-    ov = const_stores(u0.orelse if True in wc else u0.body, is_data)
-    chk.expect(cv == [0, 0] and ov == [1, 1], "R-C09-1", "graph update: a status change writes 0,0 iff the new status is Closed, else 1,1", loc(ug, u0),
-               expected="closed [0, 0] / otherwise [1, 1]", found="closed %s / otherwise %s" % (cv, ov))
-    guard = parent(u0)
-    chk.expect(isinstance(guard, ast.If) and "status" in unparse(guard.test) and "attr" in unparse(guard.test), "R-C09-1", "graph update reacts to changes of the attribute 'status'", loc(ug, u0),
-               found=unparse(guard.test) if isinstance(guard, ast.If) else None)
-    gc = [c for c in calls(ug) if last_attr(c) == "get_changes"]
-    rr = [c for c in calls(ug) if last_attr(c) == "reset_reference_point"]
-    key = lambda c: [unparse(k.value) for k in c.keywords] + [unparse(a) for a in c.args]
-    chk.expect(len(gc) == 1 and key(gc[0]) == ["'graph'"] and len(rr) == 1 and key(rr[0]) == ["'graph'"] and rr[0].lineno > gc[0].lineno, "R-C09-1",
-               "graph update consumes the changes since the 'graph' reference point and then resets that reference point", loc(ug),
-               found=[norm(c) for c in gc + rr])
-    # (c) sources
-    src_loops = [unparse(n.iter) for n in walk(ig) if isinstance(n, ast.For) and any("_source_ids" in unparse(c) for c in calls(n))]
-    chk.expect(sorted(src_loops) == ["self._wn.reservoirs()", "self._wn.tanks()"], "R-C09-1", "sources of the search are all tanks and all reservoirs", loc(ig), found=src_loops)
-    # (d) run_sim: graph refreshed before each isolation search, search before each solve
+    # ---------------------------------------------------------------- scenarios: R-C09-1 graph encoding, R-C09-2 caller, R-C09-3 flag life cycle
+    captured = []          # valid snapshots, reused as a graph family for the C++ search
+    used_keys = set()
+
+    def scenario(label, stale, debug):
+        """one simulator on the scenario network: initialise, search, then two rounds of (status changes, update, search)"""
+        wn = MockWN(LS, NODES, LINKS)
+        if stale:
+            # flags left over from an earlier (paused) simulation must not influence the graph
+            for k in ("P5", "P1", "PU2", "V1"):
+                wn.get_link(k)._is_isolated = True
+            for k in ("J4", "J1"):
+                wn.get_node(k)._is_isolated = True
+        cap = Capture(arrays)
+        model_calls = []
+
+        def model_update(*args, **kwargs):
+            model_calls.append((args, kwargs, {k: v._is_isolated for k, v in wn.nodes.items()}, {k: v._is_isolated for k, v in wn.links.items()}))
+        world, state = make_world(repo, LS, {
+            "wntr.sim.network_isolation.check_for_isolated_junctions": cap,
+            "wntr.sim.network_isolation.network_isolation.check_for_isolated_junctions": cap,
+            "wntr.sim.hydraulics.update_model_for_isolated_junctions_and_links": model_update})
+        state["log_level"] = 10 if debug else 30
+        it = world.interp
+        where = "construction"
+        try:
+            sim = world.function(CORE, "WNTRSimulator")(wn)
+        except ProgramError as e:
+            raise ExtractError("WNTRSimulator(wn) raises on the mock network: %s (line %s)" % (e, e.lineno))
+        if not isinstance(sim, Instance):
+            raise ExtractError("WNTRSimulator is not a class of %s" % CORE)
+        n2i = name_id_map(sim, wn)
+        i2n = {i: k for k, i in n2i.items()}
+        trackers = [v for v in sim._attrs.values() if isinstance(v, MTracker)]
+        if len(trackers) != 1:
+            raise ExtractError("WNTRSimulator: expected exactly one ControlChangeTracker attribute after construction, found %d" % len(trackers))
+        tracker = trackers[0]
+        prev = ([], [])
+        steps = ["initialisation", "update after round 1 of status changes", "update after round 2 of status changes"]
+        for step, what in enumerate(steps):
+            tag = "%s, %s" % (label, what)
+            fails = None
+            try:
+                if step == 0:
+                    where = "_initialize_internal_graph"
+                    it.getattr_(sim, "_initialize_internal_graph")()
+                    for k in ("graph", "model"):
+                        tracker.set_reference_point(k)
+                else:
+                    for lk, st, variant in ROUNDS[step - 1]:
+                        l = wn.get_link(lk)
+                        l.set_effective(getattr(LS, st), variant)
+                        tracker.record(l, "status")
+                    for nm, attr in OTHER_CHANGES:
+                        tracker.record(wn.get_link(nm) if nm in wn.links else wn.get_node(nm), attr)
+                    tracker.used, tracker.resets = [], []
+                    where = "_update_internal_graph"
+                    it.getattr_(sim, "_update_internal_graph")()
+                    used_keys.update(tracker.used)
+                    pending = [k for k in tracker.used if tracker._pending(k)]
+                    chk.expect(not pending and (not tracker.used or set(tracker.used) <= set(tracker.resets)), "R-C09-1",
+                               "[%s] the update consumes the changes since its reference point and resets that reference point" % tag, loc(ug),
+                               "a reference point that is not reset makes every later update re-apply old changes and lets update_model/ controls see stale ones",
+                               expected="every reference point read is reset", found="read %s, reset %s, still pending %s" % (tracker.used, tracker.resets, pending))
+                ncalls = len(cap.calls)
+                nmodel = len(model_calls)
+                where = "_get_isolated_junctions_and_links"
+                it.getattr_(sim, "_get_isolated_junctions_and_links")()
+            except ProgramError as e:
+                fails = "%s raises %s at line %s" % (where, e, e.lineno)
+            rule = "R-C09-3" if where == "_get_isolated_junctions_and_links" and fails else "R-C09-1"
+            if fails:
+                chk.bad(rule, "[%s] %s runs on the scenario network" % (tag, where), loc(meths[where]) if where in meths else CORE,
+                        "the scenario has parallel links in both orientations, closed links, pumps, valves, an unlinked junction as last node, and changes of "
+                        "attributes other than the status of links in the change tracker", found=fails)
+                return
+            # ---- the arrays handed to the search
+            new = cap.calls[ncalls:]
+            chk.expect(len(new) == 1, "R-C09-2", "[%s] the search is invoked once per call of _get_isolated_junctions_and_links" % tag, loc(gi), found=len(new))
+            if len(new) != 1:
+                return
+            rec = new[0]
+            chk.expect(rec["valid"] is None, "R-C09-2",
+                       "[%s] the Python caller passes sources, indicator, indptr, indices, data, num_connections in the order of the C signature" % tag, loc(gi),
+                       "the arrays are bound positionally to %s" % arrays, found=rec["valid"])
+            if rec["valid"] is not None:
+                return
+            snap = rec["snap"]
+            chk.expect(snap["node_indicator"] == [1] * len(n2i), "R-C09-2", "[%s] every node starts as not reached (indicator 1, one entry per node)" % tag, loc(gi),
+                       found=snap["node_indicator"])
+            captured.append(snap)
+            gf = graph_facts(wn, n2i, snap)
+            texts = [("single", "a node pair joined by one link (pipe, pump or valve) is connected, in both directions, iff that link's status is not Closed"),
+                     ("same", "a node pair joined by several links drawn the same way is connected iff any of them is not Closed"),
+                     ("opposite", "a node pair joined by links drawn in opposite directions is connected iff any of them is not Closed"),
+                     ("rows", "the graph has one row per node and num_connections holds the row lengths"),
+                     ("sources", "the sources of the search are all tanks and all reservoirs"),
+                     ("spurious", "only node pairs joined by a link are connected")]
+            for cat, text in texts:
+                chk.expect(not gf[cat], "R-C09-1", "[%s] %s" % (tag, text), loc(ig if step == 0 else ug),
+                           "the search follows an entry iff it is 1: a non-closed link must give 1 whatever else is true of it (stale _is_isolated flag, initial_status, "
+                           "_user_status/_internal_status representation), a closed one 0 unless a parallel link is open", found="; ".join(gf[cat][:4]) or None)
+            # ---- flag life cycle, judged against the indicator the search left behind
+            iso_ids = [i for i, v in enumerate(rec["after"]) if v == 1]
+            exp_j = [i2n[i] for i in iso_ids]
+            exp_l = [k for k, l in wn.links.items() if l.start_node_name in exp_j or l.end_node_name in exp_j]
+            fj = [k for k, v in wn.nodes.items() if v._is_isolated]
+            fl = [k for k, v in wn.links.items() if v._is_isolated]
+            if not stale:
+                chk.expect(not (set(fj) - set(exp_j)) and not (set(fl) - set(exp_l)), "R-C09-3",
+                           "[%s] every flag set by the previous search (junctions and links) is cleared when the element is reachable again" % tag, loc(gi),
+                           found="still flagged: %s %s" % (sorted(set(fj) - set(exp_j)), sorted(set(fl) - set(exp_l))))
+            chk.expect(set(exp_j) <= set(fj), "R-C09-3", "[%s] every node whose indicator is still 1 after the search is flagged isolated" % tag, loc(gi),
+                       found="not flagged: %s" % sorted(set(exp_j) - set(fj)))
+            chk.expect(set(exp_l) <= set(fl), "R-C09-3", "[%s] every link attached to an isolated junction (inlet or outlet) is flagged isolated" % tag, loc(gi),
+                       found="not flagged: %s" % sorted(set(exp_l) - set(fl)))
+            mc = model_calls[nmodel:]
+            ok_model = len(mc) == 1 and not mc[0][1] and len(mc[0][0]) >= 4
+            found = "%d calls" % len(mc)
+            if ok_model:
+                a = mc[0][0]
+                last4 = [sorted(x) if isinstance(x, (OrderedSet, set, list, tuple, frozenset)) else x for x in a[-4:]]
+                want4 = [sorted(prev[0]), sorted(prev[1]), sorted(exp_j), sorted(exp_l)]
+                flags_final = (not stale and sorted(k for k, v in mc[0][2].items() if v) == sorted(exp_j) and sorted(k for k, v in mc[0][3].items() if v) == sorted(exp_l)) or \
+                    (stale and set(exp_j) <= {k for k, v in mc[0][2].items() if v} and set(exp_l) <= {k for k, v in mc[0][3].items() if v})
+                ok_model = last4 == want4 and flags_final and any(x is wn for x in a[:-4])
+                found = "sets %s; flags final at the call: %s" % (last4, flags_final)
+            chk.expect(ok_model, "R-C09-3", "[%s] the model rows are rebuilt once, from (previous sets, new sets), after the flags are final" % tag, loc(gi),
+                       "update_model_for_isolated_junctions_and_links(model, wn, updater, previous junctions, previous links, new junctions, new links)",
+                       expected="previous %s %s / new %s %s" % (sorted(prev[0]), sorted(prev[1]), sorted(exp_j), sorted(exp_l)), found=found)
+            prev = (exp_j, exp_l)
+            # ---- the scenario itself must exercise isolation and reconnection (guards the harness)
+            ej, el = expected_isolated(wn)
+            if not gf["single"] and not gf["same"] and not gf["opposite"] and not gf["rows"] and not gf["sources"] and not gf["spurious"]:
+                chk.expect(sorted(ej) == sorted(exp_j), "R-C09-1", "[%s] the junctions the search leaves unreached are exactly those without a path of non-closed links to a source" % tag,
+                           loc(gi), expected=sorted(ej), found=sorted(exp_j))
+
+    scenario("network with stale flags", True, True)
+    scenario("clean network", False, False)
+    # the reference point read by the update is one that run_sim sets
+    set_keys = {const(c.args[0]) if c.args else (const(c.keywords[0].value) if c.keywords else None) for m_ in meths.values() for c in calls(m_) if last_attr(c) == "set_reference_point"}
+    chk.expect(bool(used_keys) and used_keys <= set_keys, "R-C09-1", "the graph update reads a change-tracker reference point that the simulator sets before the first step", loc(ug),
+               expected="one of %s" % sorted(str(k) for k in set_keys), found=sorted(str(k) for k in used_keys))
+
+    # run_sim: graph refreshed before each isolation search, search before each solve (CFG facts)
     g = CFG(rs)
     heads = [h for n, h in g.loop_heads.items() if isinstance(n, ast.While)]
     if len(heads) != 1:
@@ -251,166 +1064,258 @@ def run(repo, chk):
                found=("path: " + g.path_text(w)) if w else None)
     oks, w = g.must_pass(head, solves[:1], isos, drop_back=True)
     chk.expect(bool(solves) and oks, "R-C09-1", "run_sim searches for isolated junctions before every solve", loc(rs), found=("path: " + g.path_text(w)) if w else None)
-    # after post-solve controls changed the graph, it is refreshed before the re-solve
     post = g.calling("_run_postsolve_controls")
     conts = g.nodes_where(lambda node, d: isinstance(node, ast.Continue))
     chk.expect(bool(post) and bool(conts), "R-C09-1", "re-solve path exists (post-solve controls, continue)", loc(rs))
     chk.floor("R-C09-1", 12)
 
-    # ---------------------------------------------------------------- R-C09-2 search shape (C++)
-    cpp = repo.source(CPP)
-    body = cxx.norm(cxx.function_body(cpp, r"void\s+check_for_isolated_junctions\s*\("))
-    facts = [
-        ("every source seeds a search", "for(intsource_cntr=0;source_cntr<source_length;++source_cntr)" in body and "source_id=sources[source_cntr]" in body),
-        ("a source not yet reached is marked 0 and explored", "if(node_indicator[source_id]==1){node_indicator[source_id]=0;" in body and "nodes_to_explore.insert(source_id)" in body),
-        ("the scan of a node starts at indptr[node]", "ndx=indptr[node_being_explored]" in body),
-        ("the scan covers num_connections[node] entries", "number_of_connections=num_connections[node_being_explored]" in body and "for(inti=0;i<number_of_connections;++i)" in body),
-        ("an entry is followed only if data == 1", "val=data[ndx+i];if(val==1)" in body),
-        ("the neighbour is indices[ndx + i]", "col=indices[ndx+i]" in body),
-        ("a newly reached node is marked 0 and queued", "if(node_indicator[col]==1){node_indicator[col]=0;nodes_to_explore.insert(col);}" in body),
-        ("the search runs until nothing is left to explore", "while(!nodes_to_explore.empty())" in body),
-    ]
-    for name, ok in facts:
-        chk.expect(ok, "R-C09-2", "check_for_isolated_junctions: " + name, CPP)
+    # ---------------------------------------------------------------- R-C09-2 the C++ search against an independent search
+    ci = CInterp(repo.source(CPP))
+    if not ci.has("check_for_isolated_junctions"):
+        raise AnchorError("C++ function check_for_isolated_junctions not found")
+
+    def c_search(g_):
+        vals = dict(g_)
+        ind = [1] * g_["n"]
+        vals["node_indicator"] = ind
+        args = []
+        cur = None
+        for nm, is_ptr in sig:
+            if is_ptr:
+                cur = list(vals[nm]) if nm != "node_indicator" else ind
+                args.append(cur)
+            else:
+                args.append(len(cur))
+        ci.call("check_for_isolated_junctions", args)
+        return ind
+
+    def csr(n, edges):
+        """edges: (a, b, value) directed entries -> indptr, indices, data, num_connections"""
+        rows = [[] for _ in range(n)]
+        for a, b, v in edges:
+            rows[a].append((b, v))
+        ip, ix, dt = [0], [], []
+        for r in rows:
+            for b, v in sorted(r):
+                ix.append(b)
+                dt.append(v)
+            ip.append(len(ix))
+        return {"n": n, "indptr": ip, "indices": ix, "data": dt, "num_connections": [len(r) for r in rows]}
+
+    def sym(pairs):
+        return [(a, b, v) for a, b, v in pairs] + [(b, a, v) for a, b, v in pairs]
+    rnd = random.Random(909)
+    fam = collections.OrderedDict()
+    fam["the graphs the simulator built for the scenario network (closed and parallel links, an unlinked last node)"] = [
+        dict(n=len(s["node_indicator"]), sources=s["sources"], indptr=s["indptr"], indices=s["indices"], data=s["data"], num_connections=s["num_connections"]) for s in captured]
+    chains = []
+    for n in (1, 2, 5, 9):
+        for cut in range(-1, n - 1):
+            e = sym([(i, i + 1, 0 if i == cut else 1) for i in range(n - 1)])
+            for src in sorted({0, n // 2, n - 1}):
+                chains.append(dict(csr(n, e), sources=[src]))
+    fam["chains with one closed link, searched from an end and from the middle"] = chains
+    cyc = []
+    for n in (3, 6):
+        for c1 in range(n):
+            for c2 in range(c1, n):
+                e = sym([(i, (i + 1) % n, 0 if i in (c1, c2) else 1) for i in range(n)])
+                cyc.append(dict(csr(n, e), sources=[0]))
+    fam["rings with one or two closed links"] = cyc
+    rg = []
+    for _ in range(60):
+        n = rnd.randint(1, 12)
+        pairs = {(a, b) for a in range(n) for b in range(a + 1, n) if rnd.random() < 0.25}
+        e = sym([(a, b, rnd.choice((0, 1, 1))) for a, b in sorted(pairs)])
+        rg.append(dict(csr(n, e), sources=sorted(rnd.sample(range(n), rnd.randint(1, min(3, n))))))
+    fam["random graphs with open (1) and closed (0) entries"] = rg
+    fam["nodes without links: as a source, in the middle, as the last node"] = [
+        dict(csr(4, sym([(1, 2, 1)])), sources=[0]), dict(csr(4, sym([(0, 1, 1)])), sources=[0]), dict(csr(5, sym([(0, 1, 1), (3, 4, 1)])), sources=[3, 2]),
+        dict(csr(3, []), sources=[1])]
+    fam["several sources: unsorted, repeated, one reachable from another"] = [
+        dict(csr(6, sym([(0, 1, 1), (1, 2, 1), (3, 4, 1), (4, 5, 0)])), sources=[3, 0, 3, 2]), dict(csr(6, sym([(0, 1, 1), (1, 2, 0), (2, 3, 1), (4, 5, 1)])), sources=[5, 2, 0]),
+        dict(csr(4, sym([(0, 1, 1), (1, 2, 1), (2, 3, 1)])), sources=[3, 0])]
+    fam["no source at all: every node stays unreached"] = [dict(csr(4, sym([(0, 1, 1), (2, 3, 1)])), sources=[]), dict(csr(1, []), sources=[])]
+    fam["entries that differ by direction: an entry is followed only from its own row"] = [
+        dict(csr(4, [(0, 1, 1), (1, 0, 0), (1, 2, 0), (2, 1, 1), (2, 3, 1), (3, 2, 1)]), sources=[0]), dict(csr(3, [(0, 1, 0), (1, 0, 1), (1, 2, 1), (2, 1, 1)]), sources=[0]),
+        dict(csr(3, [(0, 1, 0), (1, 0, 1), (1, 2, 1), (2, 1, 1)]), sources=[2])]
+    for name, graphs in fam.items():
+        bad = None
+        for g_ in graphs:
+            want = reach(g_["sources"], g_["indptr"], g_["indices"], g_["data"], g_["num_connections"], g_["n"])
+            try:
+                got = c_search(g_)
+            except CProgramError as e:
+                got = "fails: %s" % e
+            if got != want:
+                bad = "graph indptr=%s indices=%s data=%s sources=%s: indicator %s, independent search %s" % (g_["indptr"], g_["indices"], g_["data"], g_["sources"], got, want)
+                break
+        chk.expect(bool(graphs) and bad is None, "R-C09-2", "check_for_isolated_junctions marks exactly the nodes reachable from the sources through entries equal to 1 on: " + name, CPP,
+                   "evaluated on %d graphs" % len(graphs), found=bad or ("no graph available" if not graphs else None))
     chk.floor("R-C09-2", 8)
-    # python caller passes the arrays in the order of the C signature
-    sig = re.search(r"void\s+check_for_isolated_junctions\s*\(([^)]*)\)", cxx.strip_comments(cpp)).group(1)
-    cparams = [p.strip().split()[-1].lstrip("*") for p in sig.split(",") if "*" in p]
-    call = [c for c in calls(gi) if (call_name(c) or "").endswith("check_for_isolated_junctions")]
-    if not call:
-        raise AnchorError("_get_isolated_junctions_and_links no longer calls check_for_isolated_junctions")
-    pargs = [unparse(a) for a in call[0].args]
-    want = {"sources": "self._source_ids", "node_indicator": "node_indicator", "indptr": "self._internal_graph.indptr", "indices": "self._internal_graph.indices",
-            "data": "self._internal_graph.data", "num_connections": "self._number_of_connections"}
-    chk.expect(len(pargs) == len(cparams) and all(want.get(c) == a for c, a in zip(cparams, pargs)), "R-C09-2",
-               "the Python caller passes sources, indicator, indptr, indices, data, num_connections in the order of the C signature", loc(gi, call[0]),
-               expected=[want.get(c) for c in cparams], found=pargs)
-    ind = [s for s in walk(gi) if isinstance(s, ast.Assign) and unparse(s.targets[0]) == "node_indicator"]
-    chk.expect(bool(ind) and unparse(ind[0].value).startswith("np.ones(self._wn.num_nodes"), "R-C09-2", "every node starts as not reached (indicator 1)", loc(gi), found=unparse(ind[0].value) if ind else None)
 
-    # ---------------------------------------------------------------- R-C09-3 flag life cycle
-    stores = [(unparse(s.targets[0]), const(s.value, "?"), s) for s in walk(gi) if isinstance(s, ast.Assign) and unparse(s.targets[0]).endswith("._is_isolated")]
-    clears = [s for t, v, s in stores if v is False]
-    sets_ = [s for t, v, s in stores if v is True]
-
-    def loop_iter(s):
-        q = s
-        while q is not None and not isinstance(q, ast.For):
-            q = parent(q)
-        return unparse(q.iter) if q is not None else None
-    chk.expect(sorted(loop_iter(s) or "" for s in clears) == ["self._prev_isolated_junctions", "self._prev_isolated_links"], "R-C09-3",
-               "every flag set by the previous search (junctions and links) is cleared first", loc(gi), found=[loop_iter(s) for s in clears])
-    first_set = min([s.lineno for s in sets_] or [0])
-    chk.expect(bool(clears) and bool(sets_) and max(s.lineno for s in clears) < first_set and call[0].lineno < first_set and max(s.lineno for s in clears) < call[0].lineno, "R-C09-3",
-               "order: clear old flags, search, set new flags", loc(gi))
-    ids = [s for s in walk(gi) if isinstance(s, ast.Assign) and unparse(s.targets[0]) == "isolated_junction_ids"]
-    chk.expect(bool(ids) and "node_indicator[i] == 1" in unparse(ids[0].value), "R-C09-3", "isolated junctions are exactly the nodes whose indicator is still 1", loc(gi),
-               found=unparse(ids[0].value) if ids else None)
-    jl = [s for s in sets_ if loop_iter(s) == "isolated_junction_ids"]
-    ll = [s for s in sets_ if loop_iter(s) and "connected_links" in loop_iter(s)]
-    cl = [s for s in walk(gi) if isinstance(s, ast.Assign) and unparse(s.targets[0]) == "connected_links"]
-    chk.expect(len(jl) == 1 and len(ll) == 1 and bool(cl) and unparse(cl[0].value) == "self._wn.get_links_for_node(j)", "R-C09-3",
-               "each isolated junction and every link attached to it is flagged", loc(gi), found=[unparse(c.value) for c in cl])
-    adds = sorted((unparse(c.func.value), unparse(c.args[0])) for c in calls(gi) if last_attr(c) == "add" and "isolated_" in unparse(c.func.value))
-    chk.expect(adds == [("isolated_junctions", "j"), ("isolated_links", "l")], "R-C09-3", "the new isolated sets record exactly the flagged elements", loc(gi), found=adds)
-    um = [c for c in calls(gi) if (call_name(c) or "").endswith("update_model_for_isolated_junctions_and_links")]
-    args = [unparse(a) for a in um[0].args] if um else []
-    chk.expect(bool(um) and args[-4:] == ["self._prev_isolated_junctions", "self._prev_isolated_links", "isolated_junctions", "isolated_links"], "R-C09-3",
-               "the model rows are rebuilt from (previous sets, new sets)", loc(gi), found=args)
-    tail = [(unparse(s.targets[0]), unparse(s.value)) for s in gi.body if isinstance(s, ast.Assign) and "_prev_isolated" in unparse(s.targets[0])]
-    chk.expect(sorted(tail) == [("self._prev_isolated_junctions", "isolated_junctions"), ("self._prev_isolated_links", "isolated_links")] and
-               all(s.lineno > um[0].lineno for s in gi.body if isinstance(s, ast.Assign) and "_prev_isolated" in unparse(s.targets[0])), "R-C09-3",
-               "the new sets become the previous sets after the model update", loc(gi), found=tail)
+    # ---------------------------------------------------------------- R-C09-3 model update for the symmetric difference
     uf = repo.func(HYD, "update_model_for_isolated_junctions_and_links")
     chk.fn(uf)
-    txt = unparse(uf)
-    chk.expect("prev_isolated_junctions - isolated_junctions" in txt and "isolated_junctions - prev_isolated_junctions" in txt and
-               "prev_isolated_links - isolated_links" in txt and "isolated_links - prev_isolated_links" in txt, "R-C09-3",
-               "update_model_for_isolated_junctions_and_links rebuilds rows for both directions of the symmetric difference (newly isolated and reconnected)", loc(uf))
-    ups = [c for c in calls(uf) if last_attr(c) == "update" and "updater" in unparse(c.func.value)]
-    attrs = {const(c.args[3]) if len(c.args) > 3 else None for c in ups}
-    chk.expect(len(ups) >= 2 and attrs == {"_is_isolated"}, "R-C09-3", "the rebuild is triggered through the updater entries registered for '_is_isolated'", loc(uf), found=sorted(str(a) for a in attrs))
+    wn = MockWN(LS, NODES, LINKS)
+    world, _ = make_world(repo, LS)
+    fn_u = world.function(HYD, "update_model_for_isolated_junctions_and_links")
+    combos = [((["J2", "J3"], ["P2", "P3"]), (["J3", "J6"], ["P3", "P7", "P8"])), (([], []), (["J1"], ["P1", "P2"])), ((["J1", "JL"], ["P1"]), ([], [])),
+              ((["J5"], ["V1", "P6"]), (["J5"], ["V1", "P6"]))]
+    for mk, mkname in ((OrderedSet, "OrderedSet"), (set, "set")):
+        bad = None
+        for (pj, pl), (nj, nl) in combos:
+            up = MUpdater()
+            mm = MModel()
+            try:
+                fn_u(mm, wn, up, mk(pj), mk(pl), mk(nj), mk(nl))
+            except ProgramError as e:
+                bad = "raises %s (line %s) for previous %s %s / new %s %s" % (e, e.lineno, pj, pl, nj, nl)
+                break
+            want = {(wn.get_node(k), "_is_isolated") for k in set(pj) ^ set(nj)} | {(wn.get_link(k), "_is_isolated") for k in set(pl) ^ set(nl)}
+            got = {(o, a) for m_, w_, o, a in up.updates}
+            if got != want or any(m_ is not mm or w_ is not wn for m_, w_, o, a in up.updates):
+                bad = "previous %s %s / new %s %s: updated %s, expected %s" % (pj, pl, nj, nl, sorted((o.name, a) for o, a in got), sorted((o.name, a) for o, a in want))
+                break
+        chk.expect(bad is None, "R-C09-3", "update_model_for_isolated_junctions_and_links rebuilds, through the updater entries registered for '_is_isolated', exactly the rows of the "
+                   "symmetric difference (newly isolated and reconnected junctions and links) [sets given as %s]" % mkname, loc(uf), found=bad)
     chk.floor("R-C09-3", 8)
 
-    # ---------------------------------------------------------------- R-C09-4 zeroing
-    sfn, rows = final_stores(repo)
-    chk.fn(sfn)
-    seen = set()
-    n_iso = n_con = n_lnk = 0
-    for ctx, conds, finals in rows:
-        # a path on which the flag is not forced False may be taken by an isolated element: the zero must be stored there
-        if ctx == "wn.junctions()" and forced("node._is_isolated", conds) is not False:
-            n_iso += 1
-            for fld in ("node._demand", "node._pressure", "node._leak_demand"):
-                key = (ctx, fld, str(finals.get(fld)))
-                if key in seen:
-                    continue
-                seen.add(key)
-                chk.expect(finals.get(fld) == 0, "R-C09-4", "an isolated junction reports %s = 0 on every path" % fld.split(".")[1], loc(sfn),
-                           "path %s (not excluded for an isolated junction)" % sorted(conds.items()), expected=0, found=finals.get(fld, "<not stored>"))
-            # the head that goes with zero pressure is the elevation; a datum-dependent constant (e.g. 0) is read as a real head by the
-            # status rules of check valves, pumps and tank re-opening, which then never reconnect a part lying below datum 0
-            key = (ctx, "node._head", str(finals.get("node._head")))
-            if key not in seen:
-                seen.add(key)
-                chk.expect(finals.get("node._head") == "node.elevation", "R-C09-4", "an isolated junction is stored with the head of zero pressure (its elevation)", loc(sfn),
-                           "store_results_in_network stores a constant head for a cut-off junction; _CloseHeadPumpCondition / _OpenCVCondition / the tank re-open controls compare it with "
-                           "real heads: with all elevations lowered by 200 m a re-opened pump never reconnects and a dead end behind a check valve aborts the run",
-                           expected="node.elevation", found=finals.get("node._head", "<not stored>"))
-        if ctx == "wn.links()" and forced("link._is_isolated", conds) is not False:
-            n_lnk += 1
-            key = (ctx, str(finals.get("link._flow")))
-            if key not in seen:
-                seen.add(key)
-                chk.expect(finals.get("link._flow") == 0, "R-C09-4", "an isolated link reports flow 0 on every path", loc(sfn),
-                           "path %s (not excluded for an isolated link)" % sorted(conds.items()), expected=0, found=finals.get("link._flow", "<not stored>"))
-        if ctx == "wn.junctions()" and forced("node._is_isolated", conds) is not True:
-            n_con += 1
-            key = (ctx, "conn", str(finals.get("node._head")))
-            if key not in seen:
-                seen.add(key)
-                chk.expect(finals.get("node._head") == "m.head[name].value", "R-C09-4", "a connected junction reports the solved head (never zeroed)", loc(sfn),
-                           "path %s (not excluded for a connected junction)" % sorted(conds.items()), found=finals.get("node._head"))
-    if not (n_iso and n_con and n_lnk):
-        chk.error("R-C09-4: store_results_in_network paths not found (isolated %d, connected %d, links %d)" % (n_iso, n_con, n_lnk))
+    # ---------------------------------------------------------------- R-C09-4 zeroing of the results
+    sfn = repo.func(HYD, "store_results_in_network")
     svf = repo.func(HYD, "save_results")
-    chk.fn(svf)
-    iso_p = [n for n in walk(svf) if isinstance(n, ast.If) and "_is_isolated" in unparse(n.test)]
-    okp = False
-    for n in iso_p:
-        b = [c for c in calls(ast.Module(body=n.body, type_ignores=[])) if last_attr(c) == "append"]
-        if b and all(const(c.args[0]) in (0, 0.0) for c in b):
-            okp = True
-    chk.expect(okp or not iso_p and "node.pressure" in unparse(svf), "R-C09-4", "save_results reports pressure 0 for an isolated junction (or the stored zero)", loc(svf))
-    # builders: closed-or-isolated guard, and balance / pdd / leak rows dropped
+    chk.fn(sfn, svf)
+    world, _ = make_world(repo, LS)
+    fn_s = world.function(HYD, "store_results_in_network")
+    fn_v = world.function(HYD, "save_results")
+    res = collections.OrderedDict()      # fact -> first counterexample
+    facts = ["an isolated junction reports demand = 0 in every demand mode and leak state", "an isolated junction reports pressure = 0 in every demand mode and leak state",
+             "an isolated junction reports leak_demand = 0 in every demand mode and leak state",
+             "an isolated junction is stored with the head of zero pressure (its elevation)", "an isolated link reports flow 0",
+             "a connected junction reports the solved head (never zeroed)", "a connected link reports the solved flow (never zeroed)",
+             "save_results reports pressure 0, demand 0 and leak 0 for an isolated junction and flow 0 for an isolated link"]
+    for f in facts:
+        res[f] = None
+
+    def note(f, txt):
+        if res[f] is None:
+            res[f] = txt
+    runs = 0
+    for mode in ("DD", "PDD", "PDA"):
+        for leaky in (False, True):
+            wn = MockWN(LS, NODES, LINKS, demand_model=mode)
+            ej, el = expected_isolated(wn)
+            for k in ej:
+                wn.get_node(k)._is_isolated = True
+            for k in el:
+                wn.get_link(k)._is_isolated = True
+            for k, nd in wn.nodes.items():
+                nd._leak_status = leaky and not isinstance(nd, MReservoir)
+                nd._head, nd._demand, nd._pressure, nd._leak_demand = 777.0, 777.0, 777.0, 777.0     # stale values of an earlier step
+            for k, l in wn.links.items():
+                l._flow = 777.0
+            mm = MModel()
+            ctx = "demand model %s, leak_status %s" % (mode, leaky)
+            try:
+                fn_s(wn, mm)
+            except ProgramError as e:
+                for f in facts[:7]:
+                    note(f, "store_results_in_network raises %s (line %s) [%s]" % (e, e.lineno, ctx))
+                continue
+            runs += 1
+            for k, nd in wn.nodes.items():
+                if not isinstance(nd, MJunction):
+                    continue
+                if nd._is_isolated:
+                    for f, fld in ((facts[0], "_demand"), (facts[1], "_pressure"), (facts[2], "_leak_demand")):
+                        v = getattr(nd, fld)
+                        if not (isinstance(v, (int, float)) and not isinstance(v, bool) and v == 0):
+                            note(f, "junction %s: %s = %r [%s]" % (k, fld, v, ctx))
+                    if nd._head != nd.elevation:
+                        note(facts[3], "junction %s: _head = %r, elevation %r [%s]" % (k, nd._head, nd.elevation, ctx))
+                elif nd._head != mm.head[k].value:
+                    note(facts[5], "junction %s: _head = %r, solved head %r [%s]" % (k, nd._head, mm.head[k].value, ctx))
+            for k, l in wn.links.items():
+                if l._is_isolated:
+                    if not (isinstance(l._flow, (int, float)) and l._flow == 0):
+                        note(facts[4], "link %s: _flow = %r [%s]" % (k, l._flow, ctx))
+                elif l._flow != mm.flow[k].value:
+                    note(facts[6], "link %s: _flow = %r, solved flow %r [%s]" % (k, l._flow, mm.flow[k].value, ctx))
+            node_res = collections.defaultdict(lambda: collections.defaultdict(list))
+            link_res = collections.defaultdict(lambda: collections.defaultdict(list))
+            try:
+                fn_v(wn, node_res, link_res)
+            except ProgramError as e:
+                note(facts[7], "save_results raises %s (line %s) [%s]" % (e, e.lineno, ctx))
+                continue
+            for k in ej:
+                for key in ("pressure", "demand", "leak_demand"):
+                    v = node_res[key][k]
+                    if len(v) != 1 or v[0] != 0:
+                        note(facts[7], "node['%s'][%s] = %r [%s]" % (key, k, v, ctx))
+            for k in el:
+                v = link_res["flowrate"][k]
+                if len(v) != 1 or v[0] != 0:
+                    note(facts[7], "link['flowrate'][%s] = %r [%s]" % (k, v, ctx))
+    if not runs:
+        chk.error("R-C09-4: store_results_in_network could not be evaluated in any demand mode")
+    for f, bad in res.items():
+        chk.expect(bad is None, "R-C09-4", f, loc(svf if f.startswith("save_results") else sfn),
+                   "evaluated on the scenario network for the demand models DD / PDD / PDA with and without leaks; a cut-off junction with a constant head (e.g. 0) is read as a real "
+                   "head by _CloseHeadPumpCondition / _OpenCVCondition / the tank controls", found=bad)
+
+    # builders: Closed-or-isolated -> q = 0 row; no balance / PDD / leak row for an isolated junction; re-registration on _is_isolated
     cons = repo.classes(CON)
-    linklaws = [k for k in cons if k.endswith("_headloss_constraint")]
-    for k in sorted(linklaws):
-        b = [n for n in cons[k].body if isinstance(n, ast.FunctionDef) and n.name == "build"]
-        if not b:
+    linklaws = sorted(k for k in cons if k.endswith("_headloss_constraint"))
+    for k in linklaws:
+        if not any(isinstance(n, ast.FunctionDef) and n.name == "build" for n in cons[k].body):
             continue
-        guard = [n for n in walk(b[0]) if isinstance(n, ast.If) and "_is_isolated" in unparse(n.test) and "Closed" in unparse(n.test)]
-        okg = bool(guard) and isinstance(guard[0].test, ast.BoolOp) and isinstance(guard[0].test.op, ast.Or)
-        reg = any(last_attr(c) == "add" and len(c.args) >= 2 and const(c.args[1]) == "_is_isolated" for c in calls(b[0]))
-        chk.expect(okg and reg, "R-C09-4", "%s: `Closed or _is_isolated` selects the q = 0 row and the builder re-registers on _is_isolated" % k, loc(CON, b[0]),
-                   found="guard=%s registered=%s" % (unparse(guard[0].test) if guard else None, reg))
+        fn, paths, ex = B.run_builder(repo, CON, k + ".build")
+        chk.fn(fn)
+        live = [p for p in paths if not p.st.raised]
+        wrong, n_zero, n_other, unreg = [], 0, 0, []
+        for p in live:
+            rows = [(t, v) for t, v, ln in p.stores("m.") if "[" in t]
+            zero = bool(rows) and all(isinstance(v, SymConstraint) and (getattr(v.expr, "is_Symbol", False) or isinstance(v.expr, Opaque)) and
+                                      re.match(r"^m\.flow\[[^\]]*\]$", v.expr.text if isinstance(v.expr, Opaque) else str(v.expr)) for t, v in rows)
+            iso, closed = forced_atoms(p.conds, _ISO), closed_forced(p.conds)
+            if iso is not False or closed is not False:
+                # this path can be taken by an isolated (or closed) link: it must give the q = 0 row
+                if not zero:
+                    wrong.append("%s -> %s" % (p.label[-140:], [str(v)[:60] for t, v in rows]))
+                else:
+                    n_zero += 1
+            elif not zero:
+                n_other += 1
+            if "_is_isolated" not in p.updater_attrs():
+                unreg.append(p.label[-80:])
+        chk.expect(not wrong and n_zero >= 1 and n_other >= 1 and not unreg and bool(live), "R-C09-4",
+                   "%s: a Closed or isolated link gets the q = 0 row on every path and the builder re-registers on _is_isolated" % k, loc(CON, fn),
+                   "every path whose conditions do not exclude `_is_isolated` (or `status == Closed`) must store Constraint(flow); a path that excludes both builds the head-loss row",
+                   found="paths that may be taken by an isolated/closed link without the q = 0 row: %s; q=0 paths %d, head-loss paths %d; not registered on: %s" % (wrong[:2], n_zero, n_other, unreg[:2]))
     for k in ("mass_balance_constraint", "pdd_mass_balance_constraint", "pdd_constraint", "leak_constraint"):
         if k not in cons:
             raise AnchorError("builder %s vanished" % k)
-        b = [n for n in cons[k].body if isinstance(n, ast.FunctionDef) and n.name == "build"][0]
-        guard = [n for n in walk(b) if isinstance(n, ast.If) and "_is_isolated" in unparse(n.test)]
-        builds_in_guard = False
-        for gd in guard:
-            t = unparse(gd.test)
-            neg = t.startswith("not ") or "and not node._is_isolated" in t or "not node._is_isolated" in t
-            body_builds = any(isinstance(s, ast.Assign) and isinstance(s.targets[0], ast.Subscript) and unparse(s.targets[0].value).startswith("m.") for s in walk(ast.Module(body=gd.body, type_ignores=[])))
-            else_builds = any(isinstance(s, ast.Assign) and isinstance(s.targets[0], ast.Subscript) and unparse(s.targets[0].value).startswith("m.") for s in walk(ast.Module(body=gd.orelse, type_ignores=[])))
-            if (neg and body_builds and not else_builds) or (not neg and else_builds and not body_builds):
-                builds_in_guard = True
-        reg = any(last_attr(c) == "add" and len(c.args) >= 2 and const(c.args[1]) == "_is_isolated" for c in calls(b))
-        chk.expect(builds_in_guard and reg, "R-C09-4", "%s: no row is built for an isolated junction and the builder re-registers on _is_isolated" % k, loc(CON, b),
-                   found="guards=%s registered=%s" % ([unparse(gd.test) for gd in guard], reg))
-    chk.floor("R-C09-4", 5 + 8 + 4)
+        fn, paths, ex = B.run_builder(repo, CON, k + ".build")
+        chk.fn(fn)
+        live = [p for p in paths if not p.st.raised]
+        wrong, n_built, n_skipped, unreg = [], 0, 0, []
+        for p in live:
+            rows = [(t, v) for t, v, ln in p.stores("m.") if "[" in t]
+            iso = forced_atoms(p.conds, _ISO)
+            if iso is not False:
+                if rows:
+                    wrong.append("%s -> %s" % (p.label[-140:], [t for t, v in rows]))
+                else:
+                    n_skipped += 1
+            elif rows:
+                n_built += 1
+            if "_is_isolated" not in p.updater_attrs():
+                unreg.append(p.label[-80:])
+        chk.expect(not wrong and n_built >= 1 and n_skipped >= 1 and not unreg and bool(live), "R-C09-4",
+                   "%s: no row is built for an isolated junction and the builder re-registers on _is_isolated" % k, loc(CON, fn),
+                   found="paths that may be taken by an isolated junction and build a row: %s; building paths %d, skipping paths %d; not registered on: %s" % (wrong[:2], n_built, n_skipped, unreg[:2]))
+    chk.floor("R-C09-4", 8 + 8 + 4)
 
     # ---------------------------------------------------------------- R-C09-5 a link created closed is closed in the first solve
     # the graph (and every status rule) reads link.status, which follows _user_status: all three add_* siblings must start it from initial_status
@@ -448,4 +1353,58 @@ WITNESSES = [
     dict(name="graph-shape-inferred", file=CORE, old=", shape=(self._wn.num_nodes, self._wn.num_nodes))", new=")", rule="R-C09-1"),
     dict(name="pump-created-closed-starts-open", file="wntr/network/model.py", old="        pump._user_status = pump.initial_status  # as add_pipe: a link starts in its initial status\n", new="", rule="R-C09-5"),
     dict(name="isolated-link-keeps-flow", file=HYD, old="        if link._is_isolated:\n            link._flow = 0", new="        if link._is_isolated and link.status == 0:\n            link._flow = 0", rule="R-C09-4"),
+    # ---- behaviour-preserving variants (must stay quiet): the shapes of the refactorings the rules are required to tolerate
+    dict(name="quiet-search-split-into-helpers-renamed-locals", file=CORE, silent=True,
+         old="    def _get_isolated_junctions_and_links(self):\n        logger_level = logger.getEffectiveLevel()\n",
+         new="    def _clear_previous_isolation_flags(self):\n        for junction_name in self._prev_isolated_junctions:\n            self._wn.get_node(junction_name)._is_isolated = False\n"
+             "        for link_name in self._prev_isolated_links:\n            self._wn.get_link(link_name)._is_isolated = False\n\n"
+             "    def _unreachable_node_ids(self):\n        indicator = np.ones(self._wn.num_nodes, dtype=self._int_dtype)\n"
+             "        check_for_isolated_junctions(self._source_ids, indicator, self._internal_graph.indptr,\n"
+             "                                     self._internal_graph.indices, self._internal_graph.data,\n"
+             "                                     self._number_of_connections)\n        for node_id in np.flatnonzero(indicator == 1):\n            yield int(node_id)\n\n"
+             "    def _get_isolated_junctions_and_links(self):\n        logger_level = logger.getEffectiveLevel()\n",
+         also=[("        for j in self._prev_isolated_junctions:\n            junction = self._wn.get_node(j)\n            junction._is_isolated = False\n"
+                "        for l in self._prev_isolated_links:\n            link = self._wn.get_link(l)\n            link._is_isolated = False\n",
+                "        self._clear_previous_isolation_flags()\n"),
+               ("        node_indicator = np.ones(self._wn.num_nodes, dtype=self._int_dtype)\n        check_for_isolated_junctions(self._source_ids, node_indicator, self._internal_graph.indptr,\n"
+                "                                     self._internal_graph.indices, self._internal_graph.data,\n                                     self._number_of_connections)\n\n"
+                "        isolated_junction_ids = [i for i in range(len(node_indicator)) if node_indicator[i] == 1]\n",
+                "        isolated_junction_ids = list(self._unreachable_node_ids())\n"),
+               ("            j = self._node_id_to_name[j_id]\n            junction = self._wn.get_node(j)\n            junction._is_isolated = True\n            isolated_junctions.add(j)\n"
+                "            connected_links = self._wn.get_links_for_node(j)\n            for l in connected_links:\n                link = self._wn.get_link(l)\n"
+                "                link._is_isolated = True\n                isolated_links.add(l)\n",
+                "            junction_name = self._node_id_to_name[j_id]\n            self._wn.get_node(junction_name)._is_isolated = True\n            isolated_junctions.add(junction_name)\n"
+                "            for link_name in self._wn.get_links_for_node(junction_name, 'ALL'):\n                isolated_links.add(link_name)\n"
+                "                self._wn.get_link(link_name)._is_isolated = True\n")]),
+    dict(name="quiet-graph-entry-as-conditional-expression-and-merged-source-loops", file=CORE, silent=True,
+         old="            if link.status == wntr.network.LinkStatus.Closed:\n                vals.append(0)\n                vals.append(0)\n            else:\n                vals.append(1)\n                vals.append(1)\n",
+         new="            entry = 0 if link.status == wntr.network.LinkStatus.Closed else 1\n            vals.extend([entry, entry])\n",
+         also=[("        self._source_ids = []\n        for node_name, node in self._wn.tanks():\n            node_id = self._node_name_to_id[node_name]\n            self._source_ids.append(node_id)\n"
+                "        for node_name, node in self._wn.reservoirs():\n            node_id = self._node_name_to_id[node_name]\n            self._source_ids.append(node_id)\n"
+                "        self._source_ids = np.array(self._source_ids, dtype=self._int_dtype)\n",
+                "        source_ids = [self._node_name_to_id[name] for name, _ in itertools.chain(self._wn.tanks(), self._wn.reservoirs())]\n"
+                "        self._source_ids = np.array(source_ids, dtype=self._int_dtype)\n")]),
+    dict(name="quiet-graph-update-hoisted-and-any-idiom", file=CORE, silent=True,
+         old="                if obj.status == wntr.network.LinkStatus.Closed:\n                    ndx1, ndx2 = ndx_map[obj]\n                    data[ndx1] = 0\n                    data[ndx2] = 0\n"
+             "                else:\n                    ndx1, ndx2 = ndx_map[obj]\n                    data[ndx1] = 1\n                    data[ndx2] = 1\n",
+         new="                ndx1, ndx2 = ndx_map[obj]\n                data[ndx1] = data[ndx2] = int(not obj.status == wntr.network.LinkStatus.Closed)\n",
+         also=[("            first_link = link_list[0]\n            ndx1, ndx2 = ndx_map[first_link]\n            data[ndx1] = 0\n            data[ndx2] = 0\n            for link in link_list:\n"
+                "                if link.status != wntr.network.LinkStatus.Closed:\n                    ndx1, ndx2 = ndx_map[link]\n                    data[ndx1] = 1\n                    data[ndx2] = 1\n",
+                "            connected = 1 if any(link.status != wntr.network.LinkStatus.Closed for link in link_list) else 0\n            for ndx in ndx_map[link_list[0]]:\n                data[ndx] = connected\n")]),
+    dict(name="quiet-cpp-early-continue-and-declarations-at-first-use", file=CPP, silent=True,
+         old="\t\t  val = data[ndx + i];\n\t\t  if (val == 1)\n                    {\n\t\t      col = indices[ndx + i];\n\t\t      if (node_indicator[col] == 1)\n                        {\n"
+             "\t\t\t  node_indicator[col] = 0;\n\t\t\t  nodes_to_explore.insert(col);\n                        }\n                    }\n",
+         new="\t\t  if (data[ndx + i] != 1) continue;\n\t\t  const int neighbour = indices[ndx + i];\n\t\t  if (node_indicator[neighbour] != 1) { continue; }\n"
+             "\t\t  node_indicator[neighbour] = 0;\n\t\t  nodes_to_explore.insert(neighbour);\n",
+         also=[("while (!nodes_to_explore.empty())", "while (nodes_to_explore.size() > 0)")]),
+    dict(name="quiet-results-conditional-expression-and-hoisted-head", file=HYD, silent=True,
+         old="        if link._is_isolated:\n            link._flow = 0\n        else:\n            link._flow = m.flow[name].value\n",
+         new="        link._flow = 0 if link._is_isolated else m.flow[name].value\n",
+         also=[("            node._head = m.head[name].value\n            node._pressure = m.head[name].value - node.elevation\n",
+                "            solved_head = m.head[name].value\n            node._head = solved_head\n            node._pressure = solved_head - node.elevation\n")]),
+    dict(name="quiet-builder-guard-hoisted-and-reordered", file=CON, silent=True,
+         old="            if status == LinkStatus.Closed or link._is_isolated:\n                con = aml.Constraint(f)\n            else:\n                eps = 1e-5",
+         new="            closed = status == LinkStatus.Closed\n            if link._is_isolated or closed:\n                con = aml.Constraint(f)\n            else:\n                eps = 1e-5"),
+    dict(name="quiet-builder-not-isolated-as-comparison", file=CON, silent=True,
+         old="            if not node._is_isolated:\n                expr = m.expected_demand[node_name]", new="            if node._is_isolated == False:\n                expr = m.expected_demand[node_name]"),
 ]
